@@ -15,6 +15,7 @@
 -/
 import Vita.C19.LemmasStr
 import Vita.C19.LemmasStrip
+import Vita.C19.LemmasNum
 namespace Vita.C19
 
 set_option maxRecDepth 100000 in
@@ -127,6 +128,35 @@ theorem export_denotes_shipped (f : Fmt) (t : Tree) (h : Admissible Gen.function
       (A = astT Gen.functions Gen.terminals f t ∨ astT Gen.functions Gen.terminals f t = .paren A) :=
   export_denotes _ _ f all_templates_safe all_templates_regular all_templates_noglue t h
 
+
+/-- the terminal hypothesis of `Admissible` holds for EVERY numeric terminal: a class whose
+    display is `std::to_string(double)` (finite parameter: ephemeral reals, integer::number,
+    constant<double>), `std::to_string(int)` (constant<int>) or `std::to_string(int) + ".0"`
+    (real::integer) prints – after language() has put a negative text in parentheses – a clean,
+    self-contained operand: negative and fractional constants included. -/
+theorem numeric_terminal_admissible (fns : List FnSym) (tms : List TmSym) (f : Fmt) (k : Nat)
+    (t : TmSym) (text : List Ch) (bits : Nat) (hk : tms[k]? = some t)
+    (hd : (t.disp.getD f.idx [] = [.toStrD] ∧ bits / 2 ^ 52 % 2048 ≠ 2047) ∨
+          t.disp.getD f.idx [] = [.toStrI] ∨ t.disp.getD f.idx [] = [.toStrI, .lit [46, 48]]) :
+    termOk f (firstList fns tms f) (termStr tms f k text bits) = true ∧
+    rendOk f (firstList fns tms f) (termStr tms f k text bits) = true := by
+  have hfl : 40 ∈ firstList fns tms f := by simp [firstList]
+  rcases hd with ⟨hd, hfin⟩ | hd | hd
+  · have : termStr tms f k text bits = wrapNeg (fmtF64 bits) := by
+      simp only [termStr, dispStr, hk]
+      rw [hd]
+      simp [partStr]
+    rw [this]; exact fmtF64_good f _ hfl bits hfin
+  · have : termStr tms f k text bits = wrapNeg (fmtInt (truncF64 bits)) := by
+      simp only [termStr, dispStr, hk]
+      rw [hd]
+      simp [partStr]
+    rw [this]; exact fmtInt_good f _ hfl _
+  · have : termStr tms f k text bits = wrapNeg (fmtInt (truncF64 bits) ++ [46, 48]) := by
+      simp only [termStr, dispStr, hk]
+      rw [hd]
+      simp [partStr]
+    rw [this]; exact fmtInt0_good f _ hfl _
 
 /-! ### the hypotheses are satisfiable: a concrete non-trivial program -/
 
